@@ -211,6 +211,20 @@ def run(ctx):
                 if k not in seen:
                     seen.add(k)
                     check_cmp(ctx, case)
+    # 2b. fractional seconds: the boundary grids above hold a dozen "round" fractions; here a seeded sample of digit
+    # strings of every length (the reference pads the digits to nanoseconds exactly, DateTime.tla ParseFraction)
+    fracs = sorted({"." + "".join(rnd.choice("0123456789") for _ in range(rnd.randint(1, 9))) for _ in range(ctx.pick(700, 8000))})
+    for kind, slots in (("time", [["12"], [":"], ["30"], [":"], ["45"], fracs, ["", "Z"]]),
+                        ("dateTime", [[""], ["2020"], ["-"], ["02"], ["-"], ["29"], ["T"], ["23"], [":"], ["59"], [":"], ["59"], fracs[::2], ["", "-00:30"]])):
+        mod, _info = dt.grid_module(kind, ctx.tier, rnd, lex_override=slots)
+        res = ctx.tlc("MC_DateTime", "run.cfg", workers=1, extra_files={"DTGrid.tla": mod, "run.cfg": cfg(kind, "lex", emit=True)},
+                      label=f"Gen_DateTime {kind} fractional seconds", tags=("LEX",), timeout=3000)
+        seen = set()
+        for _t, case in res.printed:
+            k = lit(case["lit"])
+            if k not in seen:
+                seen.add(k)
+                check_lex(ctx, case)
     ctx.exhaustive = True
     ctx.extra["grids"] = grid_info
     # 3. code -> spec: the strings the real __str__ produced, validated against the reference grammar by TLC
